@@ -1,11 +1,11 @@
-// counterexamples for harness c12::c12_pE_part_opt_kall_n3 (property C12); replay: ./check C12 --replay <this file>
-// features: c12
+// counterexamples for harness c20::c20_half_life_witness_ramp_n5 (property C20); replay: ./check C20 --replay <this file>
+// features: c20
 #![allow(unused_imports)]
-use crate::c12::*;
+use crate::c20::*;
 
-/// Test generated for harness `c12::c12_pE_part_opt_kall_n3` 
+/// Test generated for harness `c20::c20_half_life_witness_ramp_n5` 
 ///
-/// Check for `assertion`: ""partition yields exactly k+1 entries""
+/// Check for `assertion`: "attempt to subtract with overflow"
 ///
 /// # Warning
 ///
@@ -19,14 +19,10 @@ use crate::c12::*;
 /// logic.
 
 #[test]
-fn kani_concrete_playback_c12_pE_part_opt_kall_n3_78592904804799959() {
+fn kani_concrete_playback_c20_half_life_witness_ramp_n5_742416566166662516() {
     let concrete_vals: Vec<Vec<u8>> = vec![
         // 0
         vec![0],
-        // 0
-        vec![0],
-        // 0
-        vec![0],
     ];
-    kani::concrete_playback_run(concrete_vals, c12_pE_part_opt_kall_n3);
+    kani::concrete_playback_run(concrete_vals, c20_half_life_witness_ramp_n5);
 }
